@@ -1073,7 +1073,14 @@ func (x *c04Run) block(bi int, blk c04Block) (caseText, fp string, nontrivial bo
 			obs = append(obs, fmt.Sprintf("(%d%%nat, %d%%nat, %s)", x.aid(a), x.did(d), zstr(after[key])))
 		}
 	}
-	caseText = fmt.Sprintf("mkQ %d\n [%s]\n [%s]\n [%s]\n [%s]\n [%s]%%nat [%s]%%nat\n [%s]", x.h.ID*100+bi, strings.Join(pools, "; "), strings.Join(init, "; "),
+	var blocked []string
+	for a, id := range x.addrID {
+		if ad, err := sdk.AccAddressFromBech32(a); err == nil && x.w.App.BankKeeper.BlockedAddr(ad) {
+			blocked = append(blocked, fmt.Sprintf("%d", id))
+		}
+	}
+	sort.Strings(blocked)
+	caseText = fmt.Sprintf("mkQ %d\n [%s]\n [%s]%%nat\n [%s]\n [%s]\n [%s]\n [%s]%%nat [%s]%%nat\n [%s]", x.h.ID*100+bi, strings.Join(pools, "; "), strings.Join(blocked, "; "), strings.Join(init, "; "),
 		strings.Join(txs, ";\n  "), strings.Join(script, ";\n  "), strings.Join(appliedIdx, "; "), strings.Join(droppedIdx, "; "), strings.Join(obs, "; "))
 	fmt.Fprintf(&fpb, "|%s|%s#", strings.Join(appliedIdx, ","), strings.Join(droppedIdx, ","))
 	x.col.Op("end_block", fmt.Sprintf("executed=%d dropped=%d", len(execs), len(droppedIdx)), nil)
